@@ -877,6 +877,8 @@ def execute(case, stats):
               info.get('measured', [0, 0])[1])
     if case.get('via_eval'):
         stats.inc('flavour.yaql_eval')
+        if case.get('eval_prefill'):
+            stats.inc('flavour.yaql_eval_cache_prefilled')
     if case.get('cold'):
         stats.inc('flavour.cold_context_chain')
     if case.get('focused'):
